@@ -94,6 +94,8 @@ class World:
       return k['s']
     if 'i' in k:
       return k['i']
+    if 'x' in k:                     # an Index OBJECT held as a dict key (the model keeps key objects: DKey.idx)
+      return self.T.Index(k['x'])
     return self.lit(k['l'], k['v'])
 
   def obj(self, r):
@@ -176,11 +178,12 @@ class World:
     return {'?': repr(k)}
 
   def dkey_json(self, k):
+    """A key OBJECT held by a dict.  Index(i) and i are reported apart ({'x': i} / {'i': i}): a dict keeps the
+    key object it was first given and items() lists it, and since wp-C18F the model does the same (DKey.idx vs
+    DKey.int) — before, both sides were canonicalised to {'i': i} here."""
     j = self.pkey_json(k)
     if isinstance(j, str):      # Reserved('SKIP') == 'SKIP' as a dict key
       return {'s': j}
-    if 'x' in j:
-      return {'i': j['x']}
     return j
 
   def path_json(self, key):
@@ -510,8 +513,9 @@ def plain_dicts(o):
 
 
 def canon_items_path(T, w, root, key):
-  """Path listed by items(), canonicalised by *where* each element was found: an element met as a dict
-  key is reported as that dict key (Index(0) -> 0, Reserved('SKIP') -> 'SKIP'); SELF alone is the root."""
+  """Path listed by items(): every element as the object it is (Index(i) and i apart — the model keeps the key
+  objects a dict holds); the only canonicalisation left is by *where* an element was found: a Reserved met as a
+  dict key is that string (Reserved('SKIP') -> 'SKIP'); SELF alone is the root."""
   if not isinstance(key, T.Key):
     return [w.pkey_json(key)]
   out, cur = [], root
@@ -522,8 +526,9 @@ def canon_items_path(T, w, root, key):
     out.append(j)
     # Walk the DATA (not the view: `view[Literal]` short-circuits to the literal's value).  A Literal object
     # stored as a dict key by an earlier set is an ordinary hashable key for `dict.__getitem__`, so the walk
-    # goes through it and the elements after it are still recognised as dict keys (wp-C18F: `cur` used to be
-    # dropped at a Literal, and an Index met as a dict key BELOW a Literal key was reported as a sequence index).
+    # goes through it (wp-C18F: `cur` used to be dropped at a Literal; with the Index -> int canonicalisation of
+    # dict keys that was in force then, an Index held as a dict key BELOW a Literal key was reported as a
+    # sequence index while the model reported the int: a thorough-tier false alarm).
     try:
       cur = cur[k] if isinstance(cur, (dict, list, tuple)) else None
     except Exception:  # pylint: disable=broad-except
@@ -1035,7 +1040,7 @@ def _nd_stats(case, op, o, kind):
       nxt = None
       if c['t'] == 'dict' and isinstance(k, dict):
         for dk, v in c['es']:
-          if dk == k or ('i' in dk and dk.get('i') == k.get('x')):
+          if dk == k or (('i' in dk or 'x' in dk) and dk.get('i', dk.get('x')) == k.get('x', k.get('i', object()))):
             nxt = v
       elif c['t'] in ('list', 'tuple') and isinstance(k, dict) and ('x' in k or 'i' in k):
         i = k.get('x', k.get('i'))
@@ -1148,6 +1153,9 @@ class Gen:
     if kind == 'dict':
       ks = []
       pool = [{'s': s} for s in self.SKEYS[:3]] + [{'i': i} for i in self.IKEYS[:2]]
+      if rng.random() < 0.12:          # an Index OBJECT as a key of an input dict (never next to the equal int)
+        j = 3 + rng.randrange(2)
+        pool[j] = {'x': pool[j]['i']}
       rng.shuffle(pool)
       es = [[pool[j], kids[j]] for j in range(n)]
       return self.add({'t': 'dict', 'es': es})
@@ -1367,6 +1375,8 @@ FIXED_TREES = [
     ([{'t': 'int', 'v': 1}, {'t': 'tuple', 'rs': [0]}, {'t': 'list', 'rs': [1]}, {'t': 'dict', 'es': [[{'s': 'a'}, 2], [{'i': 0}, 1]]}], 3),
     ([{'t': 'null'}], 0),
     ([{'t': 'dict', 'es': []}, {'t': 'list', 'rs': []}, {'t': 'dict', 'es': [[{'s': 'a'}, 0], [{'s': 'b'}, 1]]}], 2),
+    # Index OBJECTS held as dict keys (Index(0) in the root, Index(1) one level down)
+    ([{'t': 'int', 'v': 1}, {'t': 'dict', 'es': [[{'x': 1}, 0]]}, {'t': 'dict', 'es': [[{'x': 0}, 1], [{'s': 'a'}, 0]]}], 2),
 ]
 ALPHABET = [{'s': 'a'}, {'s': 'n'}, {'x': 0}, {'x': 1}, {'x': 2}, {'x': -1}, {'i': 0}, 'SELF', 'SKIP']
 
